@@ -254,3 +254,37 @@ Proof.
   destruct Hwf as [Hs _]. destruct (replicate_spec a c (ra, rb, rc) Hc Hs) as [R' [E [P _]]]. rewrite H in E. injection E as <-.
   unfold natoms. rewrite P. rewrite (flat_map_const_length _ (length (a_pos a))); [reflexivity|]. intros m _. apply map_length.
 Qed.
+(* pointwise reading of the per-image listing: entry q*n + v of the concatenated images is entry v of image q *)
+Lemma nth_flat_map_blocks {A B} (f : A -> list B) (n : nat) (d : B) : forall (ms : list A) (da : A) q v,
+  (forall m, In m ms -> length (f m) = n) -> q < length ms -> v < n ->
+  nth (q * n + v) (flat_map f ms) d = nth v (f (nth q ms da)) d.
+Proof.
+  induction ms as [|m ms IH]; intros da q v Hl Hq Hv; [cbn in Hq; lia|]. cbn [flat_map].
+  pose proof (Hl m (or_introl eq_refl)) as Lm. destruct q as [|q].
+  - cbn [Nat.mul Nat.add nth]. apply app_nth1. lia.
+  - rewrite app_nth2 by (rewrite Lm; cbn; lia). rewrite Lm. replace (Datatypes.S q * n + v - n) with (q * n + v) by (cbn; lia).
+    cbn [nth]. apply IH; [intros m' Hm'; apply Hl; right; exact Hm'|cbn in Hq; lia|exact Hv].
+Qed.
+
+Theorem replicate_pointwise a c r : a_cell a = Some c -> sized a ->
+  exists R, replicate a r = Some R /\
+  forall q v, q < length (all_mults r) -> v < natoms a ->
+    let i := q * natoms a + v in
+    nth i (a_pos R) (0, 0, 0)%Z = vadd (nth v (a_pos a) (0, 0, 0)%Z) (offs_vec c (nth q (all_mults r) (0, 0, 0))) /\
+    nth i (a_typ R) 0 = nth v (a_typ a) 0 /\ nth i (a_chg R) 0%Z = nth v (a_chg a) 0%Z /\ nth i (a_grp R) 0%Z = nth v (a_grp a) 0%Z /\
+    element_of R i = element_of a v /\ mass_of R i = mass_of a v /\ label_of R i = label_of a v /\ pair_of R i = pair_of a v.
+Proof.
+  intros Hc Hs. destruct (replicate_spec a c r Hc Hs) as [R [E [P [T [C [G [E1 [E2 [E3 [E4 _]]]]]]]]]]. exists R. split; [exact E|].
+  intros q v Hq Hv. cbv zeta. destruct Hs as [S1 [S2 [S3 _]]].
+  assert (HT : nth (q * natoms a + v) (a_typ R) 0 = nth v (a_typ a) 0).
+  { rewrite T. rewrite (nth_flat_map_blocks (fun _ => a_typ a) (natoms a) 0 (all_mults r) (0, 0, 0) q v); [reflexivity|intros; exact S1|exact Hq|exact Hv]. }
+  split.
+  { rewrite P. rewrite (nth_flat_map_blocks _ (natoms a) (0, 0, 0)%Z (all_mults r) (0, 0, 0) q v); [|intros; apply map_length|exact Hq|exact Hv].
+    rewrite (nth_indep _ (0, 0, 0)%Z (vadd (0, 0, 0)%Z (offs_vec c (nth q (all_mults r) (0, 0, 0))))) by (rewrite map_length; exact Hv).
+    apply (map_nth (fun p => vadd p (offs_vec c (nth q (all_mults r) (0, 0, 0))))). }
+  split; [exact HT|]. split.
+  { rewrite C. rewrite (nth_flat_map_blocks (fun _ => a_chg a) (natoms a) 0%Z (all_mults r) (0, 0, 0) q v); [reflexivity|intros; exact S2|exact Hq|exact Hv]. }
+  split.
+  { rewrite G. rewrite (nth_flat_map_blocks (fun _ => a_grp a) (natoms a) 0%Z (all_mults r) (0, 0, 0) q v); [reflexivity|intros; exact S3|exact Hq|exact Hv]. }
+  unfold element_of, mass_of, label_of, pair_of. rewrite HT, E1, E2, E3, E4. repeat split.
+Qed.
